@@ -67,4 +67,10 @@ CHECKS["C14"] = {
   "note": "exact reals; decompositions are verified-frame stubs (exact, one legal LAPACK output); claim is 'for all spectra over frames in the library'; retained eigenvalues assumed > tol; one repaired defect (precomputed regressor with 1-D y in sample space)",
   "technique": TECH,
 }
+CHECKS["C03"] = {
+  "text": "On the factor family (X = U diag(s) V^T, Y = U diag(g) + remainder; spectra, targets, mixing in [0,1], ridge strength symbolic) the real PCovR is fitted in feature space and in sample space, and with svd_solver full / arpack / randomized, inside the same symbolic path; latent coordinates (up to the sign of each component), predictions, reconstructions and singular values are compared as exact terms; the modified covariance and Gram matrix are shown to share their non-zero spectrum, singular_values_^2 and explained_variance_ are tied to the eigenvalues in decreasing order; precomputed W given == omitted.",
+  "design_ref": "DESIGN.md 2/C03, 1.4",
+  "note": "exact reals; all three SVD routines are the same verified-frame stub (svds in ARPACK's ascending order), so the glue (reversal, truncation, projector formulas) is what is decided, not ARPACK; simple spectrum and singular values clear of rcond assumed; frames from the finite library",
+  "technique": TECH,
+}
 NOT_APPLICABLE = {}
